@@ -51,6 +51,8 @@ let result_str = function
   | RErrFormat -> "efmt"
   | RErrBadCred -> "badcred"
   | RErrPutDisabled -> "putdisabled"
+  | RErrIO -> "ioerror"
+  | RNative -> "native"
   | RCred c -> Printf.sprintf "c:%s:%s:%s:%s" (hex_of_str c.c_user) (hex_of_str c.c_pass)
                  (hex_of_str c.c_refresh) (hex_of_str c.c_access)
 
@@ -87,6 +89,10 @@ let canon_doc = function
     let items = List.map (fun (k, v) -> (hex_of_str k, canon_tval v)) d in
     "{" ^ String.concat ";" (List.map (fun (k, v) -> k ^ "=" ^ v) (List.sort (fun (a, _) (b, _) -> compare a b) items)) ^ "}"
 let md5 s = Digest.to_hex (Digest.string s)
+let string_of_str (s : n list) : string =
+  let b = Buffer.create 256 in
+  List.iter (fun c -> Buffer.add_char b (Char.chr (int_of_n c))) s;
+  Buffer.contents b
 
 (* Get: Go's map iteration order is not observable; the model yields every
    possible answer and the observed one is accepted when it is among them *)
@@ -107,22 +113,106 @@ let history id =
     let rec trailer l (m, dp) = match l with
       | "MODE" :: x :: r -> trailer r (x, dp)
       | "DP" :: x :: r -> trailer r (m, x = "1")
-      | _ -> (m, dp) in
+      | "SRC" :: r -> toks := r; (m, dp)
+      | _ -> toks := []; (m, dp) in
     let (initmode, dp) = trailer !toks ("-", false) in
     disable_put := dp;
+    let pairs () = if !toks = [] then [] else
+        let n = next_int () in times n (fun () -> let k = next_str () in let v = next_str () in (k, v)) in
+    let tops = pairs () in
+    let ents0 = pairs () in
     (match x_open_store f with
      | None -> Printf.printf "%s LOADERR\n" id
      | Some st0 ->
        let st = ref st0 in
-       let res = ref [] and files = ref [] and saved = ref false in
+       let res = ref [] and files = ref [] and saved = ref false and ents = ref ents0 and sums = ref [] in
        List.iter (fun oh ->
-           if x_saves !st (fst oh) && not (dp && (match fst oh with Put (_, _) -> true | _ -> false)) then saved := true;
+           let saves_now = x_saves !st (fst oh) && not (dp && (match fst oh with Put (_, _) -> true | _ -> false)) in
+           if saves_now then saved := true;
+           ents := retire !ents (fst oh) saves_now;
            let (st', r) = step_hinted !st oh in
-           st := st'; res := r :: !res; files := md5 (canon_doc st'.st_file) :: !files) ops;
+           st := st'; res := r :: !res; files := md5 (canon_doc st'.st_file) :: !files;
+           (* the bytes of the file: untouched until the first save, then render_file *)
+           sums := (match st'.st_file with
+               | None -> "absent"
+               | Some d -> if !saved then md5 (string_of_str (render_file tops !ents d)) else "orig") :: !sums) ops;
        (* the mode of the config file: 0600 once anything was saved (Model/CredSave.v mode_file) *)
        let mode = if !saved then Printf.sprintf "%o" (int_of_n mode_file) else initmode in
-       Printf.printf "%s RES %s FILES %s FINAL %s MODE %s\n" id (String.concat " " (List.rev !res))
-         (String.concat " " (List.rev !files)) (canon_doc !st.st_file) mode)
+       Printf.printf "%s RES %s FILES %s FINAL %s MODE %s BYTES %s\n" id (String.concat " " (List.rev !res))
+         (String.concat " " (List.rev !files)) (canon_doc !st.st_file) mode (String.concat " " (List.rev !sums)))
+
+(* the same from the BYTES of the file: Model/JsonRead.v reads and classifies the document *)
+let history_bytes id =
+  let init = (match next () with "ABSENT" -> None | "EMPTY" -> Some [] | h -> Some (str_of_hex h)) in
+  let n = next_int () in
+  let ops = times n parse_op in
+  let rec trailer l (m, dp) = match l with
+    | "MODE" :: x :: r -> trailer r (x, dp)
+    | "DP" :: x :: r -> trailer r (m, x = "1")
+    | _ -> (m, dp) in
+  let (initmode, dp) = trailer !toks ("-", false) in
+  disable_put := dp;
+  match open_bytes init with
+  | None -> Printf.printf "%s LOADERR\n" id
+  | Some ((st0, tops), ents0) ->
+    let st = ref st0 in
+    let res = ref [] and saved = ref false and ents = ref ents0 and sums = ref [] in
+    List.iter (fun oh ->
+        let saves_now = x_saves !st (fst oh) && not (dp && (match fst oh with Put (_, _) -> true | _ -> false)) in
+        if saves_now then saved := true;
+        ents := retire !ents (fst oh) saves_now;
+        let (st', r) = step_hinted !st oh in
+        st := st'; res := r :: !res;
+        sums := (match st'.st_file with
+            | None -> "absent"
+            | Some d -> if !saved then md5 (string_of_str (render_file tops !ents d)) else "orig") :: !sums) ops;
+    let mode = if !saved then Printf.sprintf "%o" (int_of_n mode_file) else initmode in
+    (* close the loop inside the model: the bytes the model writes, read back by the model's own
+       reader, give a store that answers every address of the history like the one in memory *)
+    let reopen =
+      if not !saved then "n/a" else
+        match !st.st_file with
+        | None -> "n/a"
+        | Some d ->
+          (match open_bytes (Some (render_file tops !ents d)) with
+           | None -> "UNREADABLE"
+           | Some ((st2, _), _) ->
+             let addrs = List.sort_uniq compare (List.map (fun (o, _) -> match o with
+                 | Get a | Put (a, _) | Delete a -> a | SetCs _ -> []) ops) in
+             if List.for_all (fun a ->
+                 List.sort compare (x_candidates st2.st_mem.m_cache a) = List.sort compare (x_candidates !st.st_mem.m_cache a)) addrs
+                && st2.st_mem.m_cs = !st.st_mem.m_cs
+             then "same" else "DIFFERENT") in
+    Printf.printf "%s RES %s MODE %s BYTES %s REOPEN %s\n" id (String.concat " " (List.rev !res)) mode (String.concat " " (List.rev !sums)) reopen
+
+(* DynamicStore (credentials.NewStore) on the bytes of the file *)
+let history_dynamic id =
+  let allow = (next () = "1") in
+  let init = (match next () with "ABSENT" -> None | "EMPTY" -> Some [] | h -> Some (str_of_hex h)) in
+  let n = next_int () in
+  let ops = times n parse_op in
+  disable_put := false;
+  match open_dynamic init with
+  | None -> Printf.printf "%s LOADERR\n" id
+  | Some (((st0, tops), ents0), helpers) ->
+    let st = ref st0 in
+    let res = ref [] and saved = ref false and ents = ref ents0 and sums = ref [] in
+    List.iter (fun (o, hint) ->
+        let routed = (match o with
+            | Get a | Put (a, _) | Delete a -> ds_route helpers !st a <> None
+            | SetCs _ -> true) in
+        let saves_now = (not routed) && x_saves !st o && not ((not allow) && (match o with Put (_, _) -> true | _ -> false)) in
+        if saves_now then saved := true;
+        ents := retire !ents o saves_now;
+        let (st', r) =
+          if routed then (!st, "native") else begin
+            disable_put := not allow; step_hinted !st (o, hint) end in
+        st := st'; res := r :: !res;
+        sums := (match st'.st_file with
+            | None -> "absent"
+            | Some d -> if !saved then md5 (string_of_str (render_file tops !ents d)) else "orig") :: !sums) ops;
+    disable_put := false;
+    Printf.printf "%s RES %s BYTES %s\n" id (String.concat " " (List.rev !res)) (String.concat " " (List.rev !sums))
 
 (* crash cut: paths are symbolic: D1 D2 .. (the chain of config-directory levels), P (config), T (temp).
    The first token lists the mode of every level, comma separated, "-" = missing. *)
@@ -150,6 +240,33 @@ let crash id =
     | Some f -> Printf.sprintf "%s/%o" (hex_of_str f.f_data) (int_of_n f.f_mode) in
   let showd = String.concat "," (List.map (fun d -> match dget d fs1 with None -> "-" | Some m -> Printf.sprintf "%o" (int_of_n m)) chain) in
   Printf.printf "%s STEPS %d DIR %s CFG %s TMP %s\n" id (List.length steps) showd (show p_cfg) (show p_tmp)
+
+(* a save in which one system call fails: the model's error path with its clean-up *)
+let io_error id =
+  let (chain, dirs) = parse_chain (next ()) in
+  let old = next () in
+  let oldmode = next_int () in
+  let phase = next () in
+  let j = nat_of_int (next_int ()) in
+  let n = next_int () in
+  let chunks = times n next_str in
+  let files = if old = "ABSENT" then [] else [ (p_cfg, { f_data = str_of_hex old; f_mode = n_of_int oldmode }) ] in
+  let fs0 = { fs_files = files; fs_dirs = dirs } in
+  let steps = match phase with
+    | "OK" -> save_steps chain p_cfg p_tmp chunks
+    | "MKDIR" -> failed_save_steps chain p_cfg p_tmp chunks (FMkdir j)
+    | "CREATE" -> failed_save_steps chain p_cfg p_tmp chunks FCreate
+    | "CHMOD" -> failed_save_steps chain p_cfg p_tmp chunks FChmod
+    | "WRITE" -> failed_save_steps chain p_cfg p_tmp chunks (FWrite j)
+    | "CLOSE" -> failed_save_steps chain p_cfg p_tmp chunks FClose
+    | "RENAME" -> failed_save_steps chain p_cfg p_tmp chunks FRename
+    | p -> raise (Bad ("phase " ^ p)) in
+  let fs1 = exec_all fs0 steps in
+  let show p = match fget p fs1 with
+    | None -> "ABSENT"
+    | Some f -> Printf.sprintf "%s/%o" (hex_of_str f.f_data) (int_of_n f.f_mode) in
+  let showd = String.concat "," (List.map (fun d -> match dget d fs1 with None -> "-" | Some m -> Printf.sprintf "%o" (int_of_n m)) chain) in
+  Printf.printf "%s DIR %s CFG %s TMP %s\n" id showd (show p_cfg) (show p_tmp)
 
 let script id =
   let (chain, dirs) = parse_chain (next ()) in
@@ -210,13 +327,22 @@ let () =
         (try
            match kind with
            | "H" -> history id
+           | "HB" -> history_bytes id
+           | "DB" -> history_dynamic id
            | "K" -> crash id
            | "KS" -> script id
+           | "KE" -> io_error id
            | "S" -> concurrent id
            | "B64" -> let s = next_str () in
              Printf.printf "%s %s %s\n" id (hex_of_str (b64_encode s))
                (match b64_decode s with None -> "ERR" | Some d -> "OK:" ^ hex_of_str d)
            | "HOST" -> Printf.printf "%s HOST %s\n" id (hex_of_str (x_to_hostname (next_str ())))
+           | "FB" -> let u = next_str () in let p = next_str () in let r = next_str () in let a = next_str () in
+             Printf.printf "%s BYTES %s\n" id
+               (hex_of_str (x_entry_bytes { c_user = u; c_pass = p; c_refresh = r; c_access = a }))
+           | "J" -> let s = next_str () in
+             Printf.printf "%s JQ %s JU %s\n" id (hex_of_str (json_quote s))
+               (match json_unquote s with None -> "ERR" | Some t -> "OK:" ^ hex_of_str t)
            | "E" -> let u = next_str () in let p = next_str () in
              let a = x_encode_auth u p in
              Printf.printf "%s ENC %s DEC %s\n" id (hex_of_str a)
